@@ -23,6 +23,9 @@ What is ignored, exactly:
     between two runs of the same sequential schedule they are compared byte for byte (two runs of the same
     POOL schedule: rows sorted, a pure row-order difference is reported under its own signature); for a
     subset run every data row must occur verbatim in the full run's summary.
+History stage: period A is run, then on the SAME generator folder period B (A shifted by one non-leap year: same
+number of days, other dates) is run twice; the two B runs must be byte-identical and the saved daily seed series must
+cover exactly B's dates.
 Tie 3 (observation-only monitor, harness/props/c12_monitor.py): per task the process-wide state is looked
 at: module/class-level containers changed, stdlib `random` state moved, numpy global generator advanced
 before the first re-seed.  Every observed effect must be in the extracted tables (else the extractor is
@@ -374,6 +377,15 @@ def check_monitor(ctx, run, tables, label):
                                                                          "simulate_arg_positions": t["other_args_mutated"]},
                          "simulate() leaves its shared arguments untouched",
                          "a shared argument of simulate() (daylight/weather/parameter dicts/...) changed while the task ran")
+        if t.get("none_seed_calls"):
+            ctx.count("monitor_none_seed_calls", t["none_seed_calls"])
+            ctx.disagree("effects-model:daily-seed-comes-from-the-generator-folder",
+                         {"schedule": sched_str(run.sched), "task": [t["prog"], t["sim"]], "none_seed_calls": t["none_seed_calls"],
+                          "seed_calls": t["seed_calls"]},
+                         "every re-seed uses a seed stored in the generator folder",
+                         "np.random.seed(None) was called while pre-seeding is on (re-seed from OS entropy)")
+        else:
+            ctx.count("hypothesis_all_seeds_from_folder_hit")
         if t["np_draw_before_seed"]:
             ctx.count("monitor_draw_before_seed")
             ctx.disagree("effects-model:no-draw-before-first-reseed", {"schedule": sched_str(run.sched), "task": [t["prog"], t["sim"]],
@@ -403,12 +415,21 @@ def differential(ctx, cfg, tables, repo=None, label="cfg"):
     root = tempfile.mkdtemp(prefix="ldarverif_c12_")
     results = []
     try:
-        wd_a = os.path.join(root, "A")
-        os.makedirs(wd_a)
-        ref = run_schedule(cfg, base, wd_a, repo=repo)
-        ctx.traces += 1
+        # the reference run draws fresh seeds; a scenario on which the simulator itself raises (seen: TypeError in
+        # calculate_volume_emitted, component-based estimation, a record without end date - not C12's subject) is
+        # recorded and another fresh folder is tried
+        for attempt in range(4):
+            wd_a = os.path.join(root, f"A{attempt}" if attempt else "A")
+            os.makedirs(wd_a)
+            ref = run_schedule(cfg, base, wd_a, repo=repo)
+            ctx.traces += 1
+            if ref.rc == 0:
+                break
+            ctx.count("reference_run_crashed_on_fresh_scenario")
+            ctx.extra.setdefault("fresh_run_failures", []).append({"config": label, "rc": ref.rc, "log_tail": ref.log[-1500:]})
+            ctx.note(f"{label}: the simulator raised on a freshly seeded scenario (rc={ref.rc}); retried on a new folder")
         if ref.rc != 0:
-            raise core.InfraError(f"reference run failed rc={ref.rc}\n{ref.log[-3000:]}")
+            raise core.InfraError(f"reference run failed 4 times rc={ref.rc}\n{ref.log[-3000:]}")
         check_monitor(ctx, ref, tables, "ref")
         feat = features(ref)
         ctx.extra.setdefault("features", []).append(feat)
@@ -444,6 +465,8 @@ def differential(ctx, cfg, tables, repo=None, label="cfg"):
             ctx.nontrivial.add("sensitivity:fresh-folder-differs")
         else:
             ctx.count("fresh_folder_identical_or_failed")
+            if fresh.rc != 0:
+                ctx.extra.setdefault("fresh_run_failures", []).append({"config": label, "rc": fresh.rc, "log_tail": fresh.log[-1500:]})
             ctx.note(f"{label}: a run on a fresh generator folder did not differ from the reference (rc={fresh.rc}): "
                      "the byte comparison of this configuration is not shown to be sensitive to the seeds")
         # pool rerun: same pool schedule twice in one folder (uses a copy folder sequentially)
@@ -489,6 +512,92 @@ def differential(ctx, cfg, tables, repo=None, label="cfg"):
     finally:
         shutil.rmtree(root, ignore_errors=True)
     return results
+
+
+# ------------------------------------------------------------------------------------------------
+# history stage: the generator folder still holds the daily seed series of ANOTHER period of the same length
+# ------------------------------------------------------------------------------------------------
+def history_configs(rng):
+    """period A and period B = A shifted by one (non-leap) year: same number of days, disjoint dates"""
+    cfg = c12_config(rng, rng.choice([80, 100]), 4, 1, four=False)
+    y = rng.choice([2021, 2022])          # 2021, 2022, 2023 are not leap years
+    st = W.date(y, cfg["start"][1], 1)
+    n = (W.date(*cfg["end"]) - W.date(*cfg["start"])).days
+    a, b = json.loads(json.dumps(cfg)), json.loads(json.dumps(cfg))
+    for c, year in ((a, y), (b, y + 1)):
+        s0 = W.date(year, st.month, 1)
+        e0 = s0 + W.timedelta(days=n)
+        c["start"], c["end"] = [s0.year, s0.month, s0.day], [e0.year, e0.month, e0.day]
+    return a, b
+
+
+def history_run(cfg_a, cfg_b, repo=None):
+    """returns (difference or None, seed-series problem or None, the three runs); touches no shared state (runs in a
+    worker thread next to the differential configurations)"""
+    import pickle
+
+    progs = [p["name"] for p in cfg_b["programs"]]
+    base = {"order": progs, "debug": True, "processes": 1}
+    root0 = tempfile.mkdtemp(prefix="ldarverif_c12h_")
+    try:
+        for attempt in range(4):
+            # fresh seeds per attempt: a scenario on which the simulator itself raises is skipped (see differential)
+            root = os.path.join(root0, f"h{attempt}")
+            os.makedirs(root)
+            ra = run_schedule(cfg_a, base, root, repo=repo)
+            if ra.rc != 0:
+                continue
+            rb1 = run_schedule(cfg_b, base, root, repo=repo)
+            if rb1.rc == 0:
+                break
+        if ra.rc != 0 or rb1.rc != 0:
+            raise core.InfraError(f"history stage: simulator failed 4 times\n{(ra.log if ra.rc else rb1.log)[-3000:]}")
+        series_problem = None
+        pth = os.path.join(root, "inputs", "generator", "preseed.p")
+        try:
+            with open(pth, "rb") as fh:
+                series = pickle.load(fh)
+            s0, e0 = W.date(*cfg_b["start"]), W.date(*cfg_b["end"])
+            want = {s0 + W.timedelta(days=i) for i in range((e0 - s0).days + 1)}
+            have = set(series)
+            if have != want:
+                series_problem = {"saved_series_first": str(min(have)) if have else None, "saved_series_last": str(max(have)) if have else None,
+                                  "saved_series_days": len(have), "period_b": [str(s0), str(e0)],
+                                  "simulated_days_without_seed": len(want - have)}
+        except Exception as e:
+            series_problem = {"unreadable": repr(e)}
+        rb2 = run_schedule(cfg_b, base, root, repo=repo)
+        for r, lab in ((ra, "period A"), (rb1, "period B first run"), (rb2, "period B second run")):
+            if r.rc != 0:
+                raise core.InfraError(f"history stage: {lab} failed rc={r.rc}\n{r.log[-3000:]}")
+        d = compare(rb1, rb2, "same")
+        for r in (ra, rb1, rb2):
+            r.files = {}   # outputs are not needed any more
+        return d, series_problem, [ra, rb1, rb2]
+    finally:
+        shutil.rmtree(root0, ignore_errors=True)
+
+
+def history_record(ctx, tables, cfg_a, cfg_b, result):
+    d, sp, runs = result
+    for r in runs:
+        check_monitor(ctx, r, tables, "history")
+    ctx.traces += 3
+    ctx.evaluations += 2
+    ctx.count("history:same-length-period")
+    ctx.nontrivial.add("history:folder-holds-seed-series-of-another-period-of-equal-length")
+    inp = {"history": {"cfg_a": cfg_a, "cfg_b": cfg_b}, "period_a": [cfg_a["start"], cfg_a["end"]],
+           "period_b": [cfg_b["start"], cfg_b["end"]]}
+    if sp is not None:
+        ctx.violate("C12:history:seed-series-does-not-cover-period",
+                    "after a run of period B on a generator folder that held the daily seed series of period A (same number of days), "
+                    "the saved series does not cover exactly B's dates", dict(inp, seed_series=sp))
+    if d is not None:
+        ctx.violate(f"C12:history:same-length-period:rerun-differs:{d['kind']}",
+                    f"generator folder written for period A, then the same inputs for period B (same length) run twice on it: outputs differ, "
+                    f"first differing file {d['file']}", dict(inp, first_difference=d))
+    ctx.sample({"history": "period A then period B twice on one generator folder", "period_a": inp["period_a"], "period_b": inp["period_b"],
+                "difference": None if d is None else d["file"], "seed_series_problem": sp})
 
 
 # ------------------------------------------------------------------------------------------------
@@ -728,6 +837,12 @@ def table_stage(ctx, repo=None):
                                      "which the machine takes as given (Folder)",
                                      "nondet_all_reviewed: a review list (file, function, kind, reason) in Props/C12.lean, not a proof of "
                                      "output-irrelevance; the byte comparison is the back-stop"]
+    ctx.extra["effects_tables"]["seed_series_reuse"] = tables["seedSeriesReuse"]
+    u = tables["seedSeriesReuse"]
+    if not (u["checksLength"] and u["checksStart"] and u["checksEnd"]):
+        ctx.broke("table obligation seed_series_reuse_checked", json.dumps(u, indent=1))
+    ctx.extra["side_obligations"].append("seed_series_reuse_checked (+ reused_series_covers_period): justify that the machine's Folder.seed is "
+                                         "defined for every simulated day; the set-up phase itself is outside the machine")
     unseeded = [p for p in tables["seedPoints"] if not p["seeded"]]
     if unseeded or sum(1 for p in tables["seedPoints"] if p["kind"] == "dayLoop") != 1:
         ctx.broke("table obligation consumers_reseeded", json.dumps(unseeded or tables["seedPoints"], indent=1))
@@ -739,7 +854,7 @@ def config_plan(ctx):
     if ctx.quick:
         # third configuration: two batches of simulations (n_sims = 6) with keep_all False — the merge of the
         # summary files across batches and the clearing of program outputs run in the parent between tasks
-        return [(150, 6, 1, True, True), (120, 5, 2, False, True), (70, 4, 6, True, False)]
+        return [(130, 6, 1, True, True), (110, 5, 2, False, True), (60, 4, 6, True, False)]
     # n_sims = 6/7: two batches of simulations (summary files merged across batches; with keep_all False the
     # per-program files of the second batch are deleted after summarising, the summaries still compared)
     return [(200, 8, 2, True, True), (180, 7, 1, True, True), (150, 6, 2, True, True), (200, 8, 3, False, True),
@@ -773,9 +888,15 @@ def run(ctx):
     if tgt is not None and tgt not in {m["target"] for m in tables["sharedMutations"]}:
         ctx.disagree("effects-table:sharedMutations", {"direct": "equipment_constant", "container": tgt},
                      "not listed as mutated", f"grew from {len(d['before'])} to {len(d['after'])} entries in three calls")
-    for i, (ndays, n_sites, n_sims, four, keep_all) in enumerate(config_plan(ctx)):
-        cfg = c12_config(ctx.rng, ndays, n_sites, n_sims, four, keep_all)
-        differential(ctx, cfg, tables, repo=repo, label=f"cfg{i}")
+    hist_cfgs = [history_configs(ctx.rng) for _ in range(ctx.pick(1, 3))]
+    with ThreadPoolExecutor(max_workers=1) as hex_:
+        # the history runs go through their own folders, next to the differential configurations
+        hist_jobs = [hex_.submit(history_run, a, b, repo) for a, b in hist_cfgs]
+        for i, (ndays, n_sites, n_sims, four, keep_all) in enumerate(config_plan(ctx)):
+            cfg = c12_config(ctx.rng, ndays, n_sites, n_sims, four, keep_all)
+            differential(ctx, cfg, tables, repo=repo, label=f"cfg{i}")
+        for (a, b), j in zip(hist_cfgs, hist_jobs):
+            history_record(ctx, tables, a, b, j.result())
     ctx.assumptions.append("C12: effect analysis is syntactic (import-closure reachability, aliases through parameters not seen); "
                            "OS scheduling, multiprocessing pickling and float formatting are covered by the differential runs only")
     ctx.extra["ignored_in_comparison"] = ["Logs/*", "parameters.yaml: input_directory/output_directory lines always, processes_count line "
@@ -790,6 +911,16 @@ def replay(ctx, data):
         tgt, d = direct_equipment_constant(ctx, repo)
         print("direct equipment constant:", "MUTATED" if tgt else "unchanged", d["outs"][0])
         return 1 if (tgt or ctx.violations) else 0
+    if "history" in inp:
+        d, sp, _ = history_run(inp["history"]["cfg_a"], inp["history"]["cfg_b"], repo)
+        print("period A", inp["period_a"], "then period B", inp["period_b"], "twice on the same generator folder")
+        print("saved seed series vs period B:", "covers exactly B" if sp is None else json.dumps(sp))
+        if d is None:
+            print("the two runs of period B are byte-identical")
+        else:
+            print("first differing file:", d["file"], "kind:", d["kind"])
+            print(json.dumps(d["diff"], indent=1))
+        return 1 if (d is not None or sp is not None) else 0
     if "cfg" not in inp:
         print("replay: broken obligation / correspondence:", json.dumps(data.get("broken_obligations"), indent=1)[:3000],
               json.dumps(data.get("correspondence_disagreements"), indent=1)[:3000])
@@ -844,7 +975,18 @@ SELFTEST_FILES = {
         "    for i in range(n):\n"
         "        if preseed:\n"
         "            np.random.seed(i)\n"
+        "        infra.generate_emissions(i)\n"
+        "    for i in range(n):\n"
+        "        if preseed:\n"
+        "            np.random.seed(preseed.get(i))\n"      # may be None -> seeded false
         "        infra.generate_emissions(i)\n"),
+    "initialization/preseed.py": (
+        "def gen_seed_timeseries(sim_start_date, sim_end_date, gen_dir, force_remake=False):\n"
+        "    seed_ts_dict = load(gen_dir)\n"
+        "    n_days = (sim_end_date - sim_start_date).days + 1\n"
+        "    if len(seed_ts_dict) == n_days and sim_end_date in seed_ts_dict:\n"   # start test missing
+        "        return seed_ts_dict\n"
+        "    return {}\n"),
     "initialization/initialize_infrastructure.py": (
         "import numpy as np\n"
         "from worldstub import Infrastructure\n"
@@ -1001,6 +1143,7 @@ SELFTEST_EXPECT = {
                    ("simulation_stub.py", 46, "simulation_stub:Comp.SHARED", ".clear"),
                    ("simulation_stub.py", 51, "simulation_stub:Comp.SHARED", "[]=")]),
     "points": sorted([("ldar_sim.py", "dayLoop", True), ("initialization/initialize_emissions.py", "emissionLoop", False),
+                      ("initialization/initialize_emissions.py", "emissionLoop", False),
                       ("initialization/initialize_emissions.py", "emissionLoop", True),
                       ("initialization/initialize_infrastructure.py", "infrastructure", True),
                       ("initialization/initialize_infrastructure.py", "infrastructure", False)]),
@@ -1024,6 +1167,8 @@ def extractor_selftest(ctx):
             "prologue": [("progstub.py", ln("helper"))],
             "hooks": sorted([("Flat", "__deepcopy__", False), ("Closed", "__reduce__", True), ("Leaky", "__reduce__", False)]),
             "wiring": (True, True),
+            "reuse": (True, False, True),
+            "none_arg": ["preseed.get(i)"],
             "nondet": sorted([(ln("nd1"), "setIteration"), (ln("nd2"), "setIteration"), (ln("nd3"), "dirListing"),
                               (ln("nd4"), "wallClock"), (ln("nd5"), "identity")]),
         }
@@ -1031,6 +1176,8 @@ def extractor_selftest(ctx):
             "prologue": [(r["file"], r["line"]) for r in t["prologueRngSites"]],
             "hooks": sorted((h["cls"], h["hook"], h["deep"]) for h in t["copyHooks"]),
             "wiring": (t["copyWiring"]["deepCopies"], t["copyWiring"]["usesOnlyCopy"]),
+            "reuse": (t["seedSeriesReuse"]["checksLength"], t["seedSeriesReuse"]["checksStart"], t["seedSeriesReuse"]["checksEnd"]),
+            "none_arg": [p["arg"] for p in t["seedPoints"] if p["argMayBeNone"]],
             "nondet": sorted((n["line"], n["kind"]) for n in t["nondetSites"] if n["file"] == "progstub.py"),
         }
         t["rngSites"] = [r for r in t["rngSites"] if r["file"] != "progstub.py"]
